@@ -293,6 +293,11 @@ func (g *gen) plan(b *bias, resIdx, nRes int, vary string) RespPlan {
 			p.Hop = append(p.Hop, [2]string{"Upgrade", "HOPMARK/$SID"}, [2]string{"Proxy-Connection", "HOPMARK-keep"})
 		}
 	}
+	if len(p.Hop) == 0 && g.chance(max(b.pHop/2, 5)) {
+		// the same field as an ordinary end-to-end field: what one message nominates in Connection is
+		// hop-by-hop in that message only
+		p.Extra = append(p.Extra, [2]string{pick(g, "X-Hop-Custom", "x-hop-custom"), "plain-$SID"})
+	}
 	if g.chance(30) {
 		p.Extra = append(p.Extra, [2]string{"Content-Type", pick(g, "text/plain", "application/octet-stream", "text/html; charset=utf-8")})
 	}
